@@ -365,6 +365,9 @@ func c07Exhaustive(c *sim.Ctx) *sim.Violation {
 	for i := range segs {
 		segs[i] = 1
 		st[i] = 1 + i%3
+		if int(c.Run)%2 == 1 {
+			st[i] = 5 + i%3 // long bursts of zero-length reads before every byte
+		}
 	}
 	r := link.NewReader(c, streamFor(frame, endEOFNext), link.Mode{}).WithPlan(&link.Plan{Segs: segs, Stutters: st})
 	got := ReadOne(r)
@@ -392,7 +395,7 @@ var C07 = &sim.Scenario{
 		"distinct_nontrivial counts distinct (frame bytes, event-log hash) pairs; every counted case executed at least one non-contiguous schedule.",
 	Assumptions: []string{
 		"the stub encoder (verif/ref) emits valid MQTT v5.0 frames (cross-checked by ref's own encode/decode identity test and by C02/C03)",
-		"zero-length reads are limited to 3 in a row (an endless (0,nil) reader makes no progress and is outside the property)",
+		"zero-length reads are finitely many: singly (at most 3 in a row) or in bursts of 4..8 in a row (an endless (0,nil) reader makes no progress and is outside the property)",
 		"outcomes are compared through every public accessor (drv.Observe) or as 'rejected in both'; error identity is not compared",
 	},
 	Components: components,
